@@ -27,6 +27,7 @@ REQUIRED = ["deliveries", "invocations", "reentrant_sub", "reentrant_sub_prio",
             "reentrant_unsub", "reentrant_raise", "halts", "once_consumed",
             "handler_exceptions", "noerrors_swallowed", "undeclared_rejected",
             "sources_declaring_at_run_time_only",
+            "histories_with_one_handler_subscribed_several_times",
             "weak_dropped", "handler_revent_errors",
             "noerrors_swallowed_with_reporting_hook_on",
             "lazily_initialised_sources", "halts_through_the_event_attribute",
@@ -662,7 +663,109 @@ def run_history (case, rep):
   return nontrivial
 
 
+def run_dups (case, rep):
+  """
+  One handler subscribed several times (the API allows it: every subscription
+  has its own id), next to another handler; then unsubscribed *by handler*.
+  Every subscription of that handler is gone - whether they sit next to each
+  other in the delivery order or not - and the other handler's stay.
+  case: subs = [(who, type, priority)], how = removal form, during = the
+  removal is made by the other handler while an event is being delivered.
+  """
+  import pox.lib.revent.revent as R
+  def fire (key, what):
+    rep.violation("C05 " + key, what, case)
+  class E0 (R.Event): pass
+  class E1 (R.Event): pass
+  class Src (R.EventMixin):
+    _eventMixin_events = set([E0, E1])
+  src = Src()
+  T = [E0, E1]
+  log = []
+  state = dict(remove_now=False, removed=None)
+  def h (e): log.append(("h", type(e).__name__))
+  def g (e):
+    log.append(("g", type(e).__name__))
+    if state["remove_now"]:
+      state["remove_now"] = False
+      state["removed"] = remove()
+  def remove ():
+    how = case["how"]
+    if how == "handler": return src.removeListener(h)
+    if how == "handler_type": return src.removeListener(h, eventType=T[0])
+    if how == "handler_kw": return src.removeListener(h, T[0])
+    return src.removeListeners([h])
+  fn = dict(h=h, g=g)
+  rep.count("histories_with_one_handler_subscribed_several_times")
+  for who, t, prio in case["subs"]:
+    kw = {}
+    if prio: kw["priority"] = prio
+    src.addListener(T[t], fn[who], **kw)
+  # what must be left afterwards
+  typed = case["how"] in ("handler_type", "handler_kw")
+  left = [(who, t, prio) for who, t, prio in case["subs"]
+          if not (who == "h" and (t == 0 or not typed))]
+  had = len(left) != len(case["subs"])
+  try:
+    if case.get("during"):
+      # g (highest priority, so it runs first) removes h while E0 is being
+      # delivered: no subscription of h behind it is served any more
+      src.addListener(T[0], g, priority=1000)
+      left.append(("g", 0, 1000))
+      state["remove_now"] = True
+      src.raiseEvent(E0())
+      first = list(log); del log[:]
+      if [x for x in first if x[0] == "h"]:
+        fire("handler invoked after it was unsubscribed (same handler subscribed several times)",
+             "removed by an earlier handler during delivery; still delivered: %r" % (first,))
+        return True
+      res = state["removed"]
+    else:
+      res = remove()
+  except Exception:
+    fire("unsubscribe by handler raises", traceback.format_exc()[-400:]); return True
+  if case["how"] != "bulk" and bool(res) != had:
+    fire("unsubscribe result", "removeListener returned %r, %s" %
+         (res, "subscriptions were removed" if had else "nothing to remove"))
+    return True
+  for t in (0, 1):
+    del log[:]
+    src.raiseEvent(T[t]())
+    want = sorted(who for who, tt, prio in left if tt == t)
+    got = sorted(who for who, _ in log)
+    if got != want:
+      fire("handler invoked after it was unsubscribed (same handler subscribed several times)"
+           if got.count("h") > want.count("h") else "handler skipped",
+           "after removal (%s) of h from %r: event %d reached %r, expected %r" %
+           (case["how"], case["subs"], t, got, want))
+      return True
+  n = src._eventMixin_get_listener_count()
+  if n != len(left):
+    fire("listener count", "source reports %d listeners, %d expected" % (n, len(left)))
+  return True
+
+
+def gen_dups ():
+  import itertools
+  shapes = [["h", "h"], ["h", "h", "h"], ["h", "g", "h"], ["g", "h", "h"], ["h", "h", "g"],
+            ["g", "h", "h", "g", "h"], ["h", "h", "h", "h"], ["h"], ["g"]]
+  for shape in shapes:
+    for prios in ([0] * len(shape), list(range(len(shape))), [5, 5, 1, 1, 9][:len(shape)]):
+      for types in ([0] * len(shape), [i % 2 for i in range(len(shape))]):
+        for how in ("handler", "handler_type", "handler_kw", "bulk"):
+          for during in (False, True):
+            yield dict(kind="dups", how=how, during=during,
+                       subs=[[w_, t_, p_] for w_, t_, p_ in zip(shape, types, prios)])
+
+
 def do_case (case, rep):
+  if case.get("kind") == "dups":
+    try:
+      run_dups(case, rep)
+    except Exception:
+      rep.violation("C05 harness-visible exception", traceback.format_exc()[-1200:], case)
+    rep.case(repr(sorted(case.items())), nontrivial=True)
+    return
   try:
     nt = run_history(case, rep)
   except Exception:
@@ -803,12 +906,14 @@ def plan (tier, seed):
     sp += [dict(mode="exh", nsubs=2, shard=i, nshards=4) for i in range(4)]
     sp += [dict(mode="rand", n=5000, maxlen=16, sub=i) for i in range(10)]
     sp += [dict(mode="weak", n=400)]
+    sp += [dict(mode="dups")]
     return sp
   sp = [dict(mode="exh", nsubs=1, shard=0, nshards=1)]
   sp += [dict(mode="exh", nsubs=2, shard=i, nshards=2) for i in range(2)]
   sp += [dict(mode="exh", nsubs=3, shard=i, nshards=48) for i in range(48)]
   sp += [dict(mode="rand", n=60000, maxlen=40, sub=i) for i in range(32)]
   sp += [dict(mode="weak", n=5000)]
+  sp += [dict(mode="dups")]
   return sp
 
 
@@ -819,6 +924,8 @@ def run (spec, rep):
     g = gen_exhaustive(spec["nsubs"], spec["shard"], spec["nshards"])
   elif spec["mode"] == "rand":
     g = gen_random(rng, spec["n"], spec["maxlen"])
+  elif spec["mode"] == "dups":
+    g = gen_dups()
   else:
     g = gen_weak(rng, spec["n"])
   first = True
